@@ -91,7 +91,27 @@ def labelled_result(case, unordered):
         fn = usreconcile_extended_uspfs if unordered else sreconcile_extended_spfs
     with contextlib.redirect_stderr(io.StringIO()):
         res = fn(B.input, RetentionPolicy.ALL)
+    if case.get("want_sets"):
+        return (R.ext_of(min(o.cost() for o in res)) if res else None), [B.canon(o) for o in res]
     return (R.ext_of(min(o.cost() for o in res)) if res else None), len(res)
+
+
+def canon_lab(sol, unordered):
+    """canonical form of a labelled solution that does not depend on the order of children"""
+    syn = sorted(sol[1]) if unordered else list(sol[1])
+    if len(sol) == 2:
+        return [sol[0], syn]
+    return [sol[0], syn] + sorted([canon_lab(sol[2], unordered), canon_lab(sol[3], unordered)], key=json.dumps)
+
+
+def map_lab(sol, pmap, fmap):
+    syn = [fmap[f] for f in sol[1]]
+    if len(sol) == 2:
+        return [pmap[sol[0]], syn]
+    return [pmap[sol[0]], syn, map_lab(sol[2], pmap, fmap), map_lab(sol[3], pmap, fmap)]
+
+
+DYADIC = [2, 3, 4, 0.5, 0.25, 2.0 ** -20, 2.0 ** -40, 2.0 ** 40]      # exact in binary floating point
 
 
 def scale(c, k):
@@ -222,7 +242,7 @@ def _meta_case(args):
             else:
                 fail({"orig": case, "twin": t}, "adding an outgroup changed the optimal set", {"orig": want, "twin": got})
         # scaling
-        k = rng.randint(2, 4)
+        k = rng.choice(DYADIC)
         t = dict(case, costs=scale(case["costs"], k))
         v1, s1 = thl_result(t)
         stats["scale"] += 1
@@ -250,7 +270,8 @@ def _meta_case(args):
                 lc.pop("prime", None)
                 if rng.random() < 0.4:
                     lc["base"] = True      # the base variants obey the same laws (on the LCA mapping)
-                v0l, n0 = labelled_result(lc, unordered)
+                v0l, s0l = labelled_result(dict(lc, want_sets=True), unordered)
+                n0 = len(s0l)
                 S2, pmap = swap_species(lc["S"], rng)
                 fams = sorted({f for _, l in R.otree_leaves(lc["O"]) for f in l["syn"]})
                 perm = fams[:]
@@ -265,13 +286,16 @@ def _meta_case(args):
                     return [b, a] if rng.random() < 0.5 else [a, b]
                 t = {"S": S2, "O": mapo(lc["O"]), "costs": lc["costs"], "names": rng.randrange(1 << 30), "base": lc.get("base", False),
                      "fnames": rng.choice([0, 1, 2])}
-                v1l, n1 = labelled_result(t, unordered)
+                v1l, s1l = labelled_result(dict(t, want_sets=True), unordered)
+                n1 = len(s1l)
                 stats["labelled"] += 1
-                if v0l != v1l or n0 != n1:
-                    fail({"orig": lc, "twin": t}, f"{'unordered' if unordered else 'ordered'} solver: reordering children / renaming families changed the result: {v0l},{n0} vs {v1l},{n1}", {})
+                same_sets = (sorted((canon_lab(map_lab(x, pmap, fmap), unordered) for x in s0l), key=json.dumps)
+                             == sorted((canon_lab(y, unordered) for y in s1l), key=json.dumps))
+                if v0l != v1l or n0 != n1 or not same_sets:
+                    fail({"orig": lc, "twin": t, "pmap": pmap, "fmap": {str(a): b for a, b in fmap.items()}}, f"{'unordered' if unordered else 'ordered'} solver: reordering children / renaming families changed the result: {v0l},{n0} vs {v1l},{n1}" + ("" if same_sets else " (the sets differ)"), {})
                 if not full:
                     continue
-                k = rng.randint(2, 3)
+                k = rng.choice(DYADIC)
                 v2l, n2 = labelled_result(dict(lc, costs=scale(lc["costs"], k)), unordered)
                 if (v0l is None) != (v2l is None) or (v0l is not None and (num(v2l) != k * num(v0l) or n2 != n0)):
                     fail({"orig": lc}, f"{'unordered' if unordered else 'ordered'} solver: scaling by {k}: {v0l},{n0} -> {v2l},{n2}", {})
@@ -398,12 +422,20 @@ def replay_case(payload):
         return ok, f"outgroup: {v0},{n0} -> {v1},{n1}", [v0, n0, v1, n1]
     if "scaling" in what:
         import re
-        k = int(re.search(r"by (\d+)", what).group(1))
+        ks = re.search(r"by ([0-9.eE+-]+?)[:,]", what + ":").group(1)
+        k = float(ks) if any(ch in ks for ch in ".eE") else int(ks)
         v1, n1 = res(dict(orig, costs=scale(orig["costs"], k)))
         ok = (v0 is None and v1 is None) or (v0 is not None and v1 is not None and num(v1) == k * num(v0) and n1 == n0)
         return ok, f"scaling by {k}: {v0},{n0} -> {v1},{n1}", [v0, n0, v1, n1]
     if twin is None:
         return True, "no twin stored for this relation", [v0, n0]
+    if lab and "pmap" in case:
+        fmap = {int(a): b for a, b in case["fmap"].items()}
+        v0, s0 = labelled_result(dict(orig, want_sets=True), unordered)
+        v1, s1 = labelled_result(dict(twin, want_sets=True), unordered)
+        same = (sorted((canon_lab(map_lab(x, case["pmap"], fmap), unordered) for x in s0), key=json.dumps)
+                == sorted((canon_lab(y, unordered) for y in s1), key=json.dumps))
+        return (v0 == v1 and same), f"reordering children / renaming: minimum {v0} vs {v1}, {len(s0)} vs {len(s1)} solutions, sets {'equal' if same else 'differ'}", [v0, len(s0), v1, len(s1)]
     v1, n1 = res(twin)
     if "raising" in what:
         ok = v0 is None or (v1 is not None and num(v1) >= num(v0))
